@@ -5,6 +5,8 @@ pub fn dispatch(v: &Value) -> Value {
         "bdd_script" => bdd_script(v),
         "adf_sem" => adf_sem(v),
         "iter" => iter_cmd(v),
+        "compile" => compile_cmd(v),
+        "sem_text" => sem_text(v),
         "adf_persist" => adf_persist(v),
         "adf_history" => adf_history(v),
         "mirror" => mirror_cmd(v),
@@ -63,13 +65,30 @@ pub fn bdd_script(v: &Value) -> Value {
                 bdd = Bdd::from(nodes);
                 Term(0)
             }
+            "serde_reimport" => {
+                let text = serde_json::to_string(&bdd).expect("export");
+                bdd = serde_json::from_str(&text).expect("import");
+                bdd.fix_import();
+                Term(0)
+            }
             _ => panic!("unknown op {}", op),
         };
         handles.push(r);
         steps_out.push(json!({"h": r.value(), "nodes": bdd.nodes.len(), "table": table(&bdd, r, n)}));
     }
     let tables: Vec<Value> = handles.iter().map(|h| table(&bdd, *h, n)).collect();
-    json!({"steps": steps_out, "nodes": dump_nodes(&bdd), "final_tables": tables})
+    let nodes_dump = dump_nodes(&bdd);
+    // a complete unique table answers a request for an existing node with the existing handle
+    let mut renode = Value::Null;
+    for i in 2..bdd.nodes.len() {
+        let nd = bdd.nodes[i];
+        let t = bdd.node(nd.var(), nd.lo(), nd.hi());
+        if t != Term(i) {
+            renode = json!(format!("node {} requested again received the new handle {} (unique table incomplete: duplicate node)", i, t.value()));
+            break;
+        }
+    }
+    json!({"steps": steps_out, "nodes": nodes_dump, "final_tables": tables, "renode_problem": renode})
 }
 
 use adf_bdd::adf::heuristics::Heuristic;
@@ -405,12 +424,97 @@ fn api_call(adf: &mut Adf, name: &str, n: usize, v: &Value) -> Value {
             let y = adf.bdd.restrict(x, Var(0), true);
             let z = adf.bdd.or(y, a0);
             adf.bdd.restrict(z, Var(n - 1), false);
+            adf.bdd.imp(a0, a1);
+            adf.bdd.iff(a1, x);
             Value::Null
         }
         other => {
             let (res, _) = run_proc(adf, other, v);
             json!(res.iter().map(|r| classes(r)).collect::<Vec<_>>())
         }
+    }
+}
+
+
+/// runs the public operation that consults one specific memo entry and judges its answer against the truth tables (walked natively)
+fn run_probe(adf: &mut Adf, p: &Value, n: usize) -> (bool, String) {
+    if p.is_null() {
+        return (false, String::new());
+    }
+    let op = p["op"].as_str().unwrap_or("");
+    let a = if p["a"].is_null() { Term(0) } else { Term(us(&p["a"])) };
+    let tab = |bdd: &Bdd, t: Term| -> Vec<bool> { (0..(1u64 << n)).map(|x| eval(bdd, t, x)).collect() };
+    let len = adf.bdd.nodes.len();
+    if a.value() >= len {
+        return (false, "handle out of range".into());
+    }
+    let ta = tab(&adf.bdd, a);
+    match op {
+        "not" | "and" | "or" | "imp" => {
+            let b = if op == "not" { a } else { Term(us(&p["b"])) };
+            if b.value() >= len { return (false, "handle out of range".into()); }
+            let tb = tab(&adf.bdd, b);
+            let r = match op { "not" => adf.bdd.not(a), "and" => adf.bdd.and(a, b), "or" => adf.bdd.or(a, b), _ => adf.bdd.imp(a, b) };
+            let tr = tab(&adf.bdd, r);
+            let want: Vec<bool> = ta.iter().zip(tb.iter()).map(|(x, y)| match op { "not" => !*x, "and" => *x && *y, "or" => *x || *y, _ => !*x || *y }).collect();
+            (tr != want, format!("{}({},{}) = {} with table {:?}, expected {:?}", op, a.value(), b.value(), r.value(), tr, want))
+        }
+        "iff_or_xor" => {
+            let b = Term(us(&p["b"]));
+            if b.value() >= len { return (false, "handle out of range".into()); }
+            let tb = tab(&adf.bdd, b);
+            let r1 = adf.bdd.iff(a, b);
+            let r2 = adf.bdd.xor(a, b);
+            let t1 = tab(&adf.bdd, r1);
+            let t2 = tab(&adf.bdd, r2);
+            let w1: Vec<bool> = ta.iter().zip(tb.iter()).map(|(x, y)| x == y).collect();
+            let w2: Vec<bool> = ta.iter().zip(tb.iter()).map(|(x, y)| x != y).collect();
+            (t1 != w1 || t2 != w2, format!("iff/xor({},{}) = {},{}", a.value(), b.value(), r1.value(), r2.value()))
+        }
+        "restrict" => {
+            let v = us(&p["var"]);
+            let val = p["val"].as_bool().unwrap();
+            let r = adf.bdd.restrict(a, Var(v), val);
+            let tr = tab(&adf.bdd, r);
+            let want: Vec<bool> = (0..(1usize << n)).map(|x| if v < n { ta[if val { x | (1 << v) } else { x & !(1 << v) }] } else { ta[x] }).collect();
+            (tr != want, format!("restrict({},{},{}) = {} with table {:?}, expected {:?}", a.value(), v, val, r.value(), tr, want))
+        }
+        "renode" => {
+            // ask the store for every node it already holds: a complete unique table answers with the existing handle
+            let len0 = adf.bdd.nodes.len();
+            for i in 2..len0 {
+                let nd = adf.bdd.nodes[i];
+                let t = adf.bdd.node(nd.var(), nd.lo(), nd.hi());
+                if t != Term(i) {
+                    return (true, format!("node {} requested again received the new handle {} (duplicate node)", i, t.value()));
+                }
+            }
+            (false, String::new())
+        }
+        "deps" => {
+            let mut d: Vec<usize> = adf.bdd.var_dependencies(a).iter().map(|x| x.value()).collect();
+            d.sort();
+            let want: Vec<usize> = (0..n).filter(|v| (0..(1usize << n)).any(|x| ta[x] != ta[x ^ (1 << v)])).collect();
+            (d != want, format!("var_dependencies({}) = {:?}, support {:?}", a.value(), d, want))
+        }
+        "counts" => {
+            fn walk(bdd: &Bdd, t: Term) -> (usize, usize, usize) {
+                if t == Term::BOT { return (1, 0, 0); }
+                if t == Term::TOP { return (0, 1, 0); }
+                let nd = bdd.nodes[t.value()];
+                let l = walk(bdd, nd.lo());
+                let h = walk(bdd, nd.hi());
+                (l.0 + h.0, l.1 + h.1, l.2.max(h.2) + 1)
+            }
+            let w = walk(&adf.bdd, a);
+            let p_ = adf.bdd.paths(a, true);
+            let d = adf.bdd.max_depth(a);
+            let m = adf.bdd.models(a, false);
+            let sat = ta.iter().filter(|x| **x).count();
+            let bad = (p_.cmodels, p_.models, d) != w || m.models * (1 << n) != sat * (m.models + m.cmodels);
+            (bad, format!("paths/depth of {} = ({},{},{}), diagram has {:?}; models ({},{}) for {} of {} satisfying", a.value(), p_.cmodels, p_.models, d, w, m.cmodels, m.models, sat, 1 << n))
+        }
+        _ => (false, String::new()),
     }
 }
 
@@ -437,10 +541,12 @@ pub fn adf_history(v: &Value) -> Value {
     }
     let fin = v["final"].as_str().unwrap();
     let after = api_call(&mut adf, fin, n, v);
+    let (probe_wrong, probe_detail) = run_probe(&mut adf, &v["probe"], n);
     let changed = adf.ac.iter().zip(tabs.iter()).any(|(t, tb)| table(&adf.bdd, *t, n) != json!(tb));
     let mut fresh_adf = adf_from_tabs(n, &tabs);
     let fresh = api_call(&mut fresh_adf, fin, n, v);
-    json!({"after": after, "fresh": fresh, "tables_changed": changed, "repeat_differs": repeat_differs, "nodes": dump_nodes(&adf.bdd)})
+    json!({"after": after, "fresh": fresh, "tables_changed": changed, "repeat_differs": repeat_differs, "nodes": dump_nodes(&adf.bdd),
+           "probe_wrong": probe_wrong, "probe_detail": probe_detail})
 }
 
 fn final_call(adf: &mut Adf, fin: &str, n: usize, v: &Value) -> Value {
@@ -478,8 +584,86 @@ pub fn adf_persist(v: &Value) -> Value {
     let ac_after: Vec<usize> = back.ac.iter().map(|t| t.value()).collect();
     let fin = v["final"].as_str().unwrap();
     let after = final_call(&mut back, fin, n, v);
+    let (probe_wrong, probe_detail) = run_probe(&mut back, &v["probe"], n);
     let mut fresh_adf = adf_from_tabs(n, &tabs);
     let fresh = final_call(&mut fresh_adf, fin, n, v);
     json!({"nodes_before": nodes_before, "nodes_after": nodes_after, "ac_before": ac_before, "ac_after": ac_after,
-           "after": after, "fresh": fresh, "nodes_final": dump_nodes(&back.bdd)})
+           "after": after, "fresh": fresh, "nodes_final": dump_nodes(&back.bdd), "probe_wrong": probe_wrong, "probe_detail": probe_detail})
+}
+
+use adf_bdd::adfbiodivine::Adf as BdAdf;
+
+fn parse_sorted<'a>(parser: &'a AdfParser<'a>, text: &'a str, sort: &str) -> bool {
+    if parser.parse()(text).is_err() {
+        return false;
+    }
+    match sort {
+        "lexi" => {
+            parser.varsort_lexi();
+        }
+        "alphanum" => {
+            parser.varsort_alphanum();
+        }
+        _ => {}
+    }
+    true
+}
+
+fn names_of(adf: &Adf) -> Vec<String> {
+    adf.ordering.names().read().unwrap().clone()
+}
+
+/// compiles a text into the library's own diagrams: natively, through the biodivine bridge, or through the pre-grounded bridge
+pub fn compile_cmd(v: &Value) -> Value {
+    let text = v["text"].as_str().unwrap().to_string();
+    let parser = AdfParser::default();
+    if !parse_sorted(&parser, &text, v["sort"].as_str().unwrap_or("none")) {
+        return json!({"error": "parse"});
+    }
+    let adf = match v["mode"].as_str().unwrap_or("native") {
+        "native" => Adf::from_parser(&parser),
+        "bridge" => Adf::from_biodivine(&BdAdf::from_parser(&parser)),
+        "hybrid" => BdAdf::from_parser(&parser).hybrid_step(),
+        "hybrid_noopt" => BdAdf::from_parser(&parser).hybrid_step_opt(false),
+        "hybrid_rew" => BdAdf::from_parser_with_stm_rewrite(&parser).hybrid_step(),
+        m => return json!({"error": format!("mode {}", m)}),
+    };
+    json!({"names": names_of(&adf), "nodes": dump_nodes(&adf.bdd), "ac": adf.ac.iter().map(|t| t.value()).collect::<Vec<_>>()})
+}
+
+/// a semantics procedure on a text, on the chosen back-end, as the CLI wires them
+pub fn sem_text(v: &Value) -> Value {
+    let text = v["text"].as_str().unwrap().to_string();
+    let parser = AdfParser::default();
+    if !parse_sorted(&parser, &text, v["sort"].as_str().unwrap_or("none")) {
+        return json!({"error": "parse"});
+    }
+    let backend = v["backend"].as_str().unwrap_or("naive");
+    let proc_ = v["proc"].as_str().unwrap();
+    let names: Vec<String> = parser.var_container().names().read().unwrap().clone();
+    let res: Vec<Vec<Term>> = match backend {
+        "biodivine" => {
+            let adf = if proc_ == "stmrew" { BdAdf::from_parser_with_stm_rewrite(&parser) } else { BdAdf::from_parser(&parser) };
+            match proc_ {
+                "grounded" => vec![adf.grounded()],
+                "complete" => adf.complete().collect(),
+                "stable" => adf.stable().collect(),
+                "stmrew" | "stmrew2" => adf.stable_bdd_representation(),
+                p => return json!({"error": format!("proc {} on biodivine", p)}),
+            }
+        }
+        "hybrid" | "hybrid_noopt" => {
+            let bd = if proc_ == "stmrew" { BdAdf::from_parser_with_stm_rewrite(&parser) } else { BdAdf::from_parser(&parser) };
+            let mut adf = if backend == "hybrid" { bd.hybrid_step() } else { bd.hybrid_step_opt(false) };
+            match proc_ {
+                "stmrew" | "stmrew2" => adf.stable_bdd_representation(&bd),
+                p => run_proc(&mut adf, p, v).0,
+            }
+        }
+        _ => {
+            let mut adf = Adf::from_parser(&parser);
+            run_proc(&mut adf, proc_, v).0
+        }
+    };
+    json!({"names": names, "result": res.iter().map(|r| classes(r)).collect::<Vec<_>>()})
 }
